@@ -679,6 +679,11 @@ func (e *Env) call(c *CallE) Val {
 		// asval(err, T): the value errors.As would store
 		t := x.P.resolveType(c.Args[1], e.tctx)
 		return x.asValOf(e.st, x.scalar(e.eval(c.Args[0])), t.Go)
+	case "box":
+		// box(v): v converted to an interface value, as Go's implicit conversion to `any` does; box(zero(T)) for an
+		// empty struct type T is how a contract names a context key
+		v := e.eval(c.Args[0])
+		return x.makeIface(e.st, v, valType(v), types.NewInterfaceType(nil, nil))
 	case "typeis":
 		x.useIface()
 		v := x.scalar(e.eval(c.Args[0]))
